@@ -26,6 +26,13 @@ def endings(rng):
     gzz = sc.good_reply(b'Sec-WebSocket-Extensions: permessage-deflate; server_no_context_takeover; client_no_context_takeover\r\n')
     E.append(('bad-deflate-no-takeover', Scenario(reads([gzz + server_frame(1, b'\xff\xff\xff\x07garbage', rsv1=1)]) + [('wait', 0, ('eof',))], {}, prate=0)))
     E.append(('mid-deflate-no-takeover', Scenario(reads([gzz + server_frame(1, bytes.fromhex('f248cd'), rsv1=1, fin=0)]) + [('wait', 0, ('eof',))], {}, prate=0)))
+    # a connection that really built compression contexts in both directions (and ends inside a compressed fragmented message)
+    from refcodec import DeflatePeer
+    pr = DeflatePeer()
+    zfr = b''.join(server_frame(1, pr.compress(m), rsv1=1) for m in (b'context context context one', b'context context two'))
+    zpart = pr.compress(b'context context context three')
+    E.append(('deflate-contexts-built', Scenario(reads([gz + zfr + server_frame(2, zpart[:5], rsv1=1, fin=0)]) + [('wait', 0, ('eof',))],
+                                                 {3: [('send_text', ('s', [ord(c) for c in 'context context context']), True)], 4: [('send_binary', ('b', b'context context context'), True)]}, prate=0)))
     E.append(('while-closing', Scenario(reads([g + server_frame(1, b'x')]) + [('wait', 0, ('eof',))], {2: [('close', 1000, ('b', b'bye'))]}, prate=0)))
     E.append(('closing-timeout', Scenario(reads([g]) + [('wait', 5, None)] * 8, {2: [('close', 1000, ('b', b'bye'))]}, prate=0, ctimeout=10)))
     E.append(('server-closed', Scenario(reads([g + server_frame(8, close_payload(1000, b''))]) + [('wait', 0, ('eof',))], {}, prate=0)))
